@@ -270,7 +270,8 @@ def run_readme_order(prop: str, seed: int, fixed_plan: dict | None = None) -> di
                 lt.pop("crash", None)
         plan["readme_order"] = True
         res["plan"] = plan
-        c = L.run_real(P.control_plan(plan["world"], plan["Tmax"]), os.path.join(root, "c"), x64_first=False)
+        cplan = dict(P.control_plan(plan["world"], plan["Tmax"]), devices=plan.get("devices", 1))
+        c = L.run_real(cplan, os.path.join(root, "c"), x64_first=False)
         rctl = Q.Ctl(c)
         if not rctl.ok:
             res["verdict"] = "violation"
